@@ -229,7 +229,7 @@ def run_c13(ctx):
     vlib.require_clean(res, "MCRules")
     rep = loadhist(ctx, res.vecs, "mutations", {"verdict", "offender", "schema"}, devs, extra=["-offender"])
     # the rules hold for the schema as a whole: a later load that breaks a rule for a type loaded earlier is refused too
-    for k, prefixes in ([(1, ["p1", "p2", "p3"])] if ctx.tier == "quick" else [(2, ["p1", "p2", "p3"])]):
+    for k, prefixes in ([(1, ["p1", "p2", "p3", "p4"])] if ctx.tier == "quick" else [(2, ["p1", "p2", "p3", "p4"])]):
         loader_histories(ctx, loader_cfg(k, prefixes, devs, "FALSE"), "histories-%d-%s" % (k, "".join(prefixes)), {"verdict", "schema"}, devs)
     record_and_judge(ctx, devs, 300 if ctx.tier == "quick" else 4000)
     muts = sorted({v["tag"].split(":", 1)[1] for v in res.vecs})
